@@ -2,13 +2,9 @@
 From Coq Require Import List NArith ZArith Extraction ExtrOcamlBasic.
 From NV Require Import Bytes UcDefs GenUcTables GenConf GenConsts DirDefs RenDefs ShapeDefs.
 Definition all_types : nat * N * Z := (0%nat, 0%N, 0%Z).
-(* dir_reorder as the argument of ren_position: out of fuel leaves the array alone (the driver
-   reports out-of-fuel separately through dir_reorder itself) *)
-Definition dr_of (xtd ctxfound : Z) (raw : nat -> nat -> Z -> Z -> option rawres) (s : bytes) (ord : list nat) : list nat :=
-  match dir_reorder s xtd ctxfound raw ord with Some r => r | None => ord end.
 Extraction "ren_model.ml" all_types uc_chop uc_slen uc_code uc_cput
   tfind find_b mem uc_isdw uc_iszw uc_wid uc_isbell uc_iscomb uc_acomb ren_placeholder ren_cwid
   ren_position ren_wid pos_next pos_prev ren_pos ren_off ren_cursor ren_noeol ren_next chr_at
   dir_reverse dir_fix dir_match dir_context dir_reorder dr_of
   find_achar_o find_achar lookup_achar can_join uc_cshape uc_r2l uc_shape ren_translate
-  dwchars zwchars bchars achars dirmarks.
+  dwchars zwchars bchars achars dirmarks pat_nullable.
